@@ -707,7 +707,7 @@ fn handle_special_immediates(offset: u8, special: SpecialComm, imm: &syn::Expr, 
         } else {
             dynamics.push((offset, quote_spanned!{ imm.span()=>
                 {
-                    let value: u64 = !#imm;
+                    let value: u64 = !(#imm);
                     let offset = value.trailing_zeros() & 0b110000;
 
                     if (value & !(0xFFFFu64 << offset)) != 0 {
@@ -729,7 +729,7 @@ fn handle_special_immediates(offset: u8, special: SpecialComm, imm: &syn::Expr, 
         } else {
             dynamics.push((offset, quote_spanned!{ imm.span()=>
                 {
-                    let value: u32 = !#imm;
+                    let value: u32 = !(#imm);
                     let offset = value.trailing_zeros() & 0b10000;
 
                     if (value & !(0xFFFFu32 << offset)) != 0 {
